@@ -135,3 +135,39 @@ impl Report {
         std::fs::write(path, serde_json::to_string(&v).unwrap()).expect("write report");
     }
 }
+
+/// remove the renaming suffix _$_<n> from every string of a JSON value (scope events name renamed variables)
+pub fn strip_renaming(v: &Value) -> Value {
+    match v {
+        Value::String(s) => Value::String(match s.find("_$_") {
+            // name_$_12 and name_$_12_$_340 (renamed more than once)
+            Some(i) if i + 3 < s.len() && s[i..].split("_$_").skip(1).all(|part| !part.is_empty() && part.chars().all(|c| c.is_ascii_digit())) => s[..i].to_string(),
+            _ => s.clone(),
+        }),
+        Value::Array(a) => Value::Array(a.iter().map(strip_renaming).collect()),
+        Value::Object(o) => Value::Object(o.iter().map(|(k, x)| (k.clone(), strip_renaming(x))).collect()),
+        other => other.clone(),
+    }
+}
+
+/// one Trace_ComScope record
+pub fn scope_record(idents: &[String], result: &Value) -> Option<Value> {
+    let evs = result.get("events")?.as_array()?;
+    // the events keep the renamed names (x_$_12: unique per binder, so a re-bound name is not confused with the one it
+    // shadows); for the comparison with the program's own identifiers the renaming suffix is removed
+    let coms: Vec<Value> = evs.iter().filter(|e| e["ev"] == "com").map(|e| {
+        let mut e = e.clone();
+        let stripped = strip_renaming(&e);
+        let mut known: Vec<Value> = vec![];
+        for k in ["args", "env_only", "bound_inside"] {
+            known.extend(stripped[k].as_array().cloned().unwrap_or_default());
+        }
+        e["u_free"] = stripped["free"].clone();
+        e["u_known"] = Value::Array(known);
+        e
+    }).collect();
+    if coms.is_empty() {
+        return None;
+    }
+    Some(serde_json::json!({"idents": idents, "events": coms}))
+}
